@@ -311,6 +311,43 @@ pub fn run(run: &mut Run) {
         }
     }
 
+    // ---- fractional terms with 1..18 fraction digits in every unit, several digit patterns,
+    //      alone and followed by a second term: the exact truncated value
+    run.sub("fractions");
+    for unit in ["h", "m", "s", "ms", "us", "ns"] {
+        for digits in 1..=18usize {
+            for pat in 0..5 {
+                let frac: String = match pat {
+                    0 => format!("5{}", "0".repeat(digits - 1)),
+                    1 => "9".repeat(digits),
+                    2 => format!("{}1", "0".repeat(digits - 1)),
+                    3 => "123456789012345678"[..digits].to_string(),
+                    _ => format!("{}7", "3".repeat(digits - 1)),
+                };
+                for (whole, tail) in [("0", ""), ("1", ""), ("2", "3ns"), ("0", "1h")] {
+                    if !run.take() {
+                        continue;
+                    }
+                    let text = format!("{}.{}{}{}", whole, frac, unit, tail);
+                    let spec = classify(&text);
+                    let mut ctx = base.new_inner_scope();
+                    ctx.add_variable_from_value("v", text.clone());
+                    let got = subj::exec(&p_parse, &ctx);
+                    run.trans(1);
+                    run.validated();
+                    run.nontrivial();
+                    run.class(&format!("fractions:{}:{}", unit, got.tag()), || json!({"text": text, "got": got.show()}));
+                    if let Spec::MustAccept(v) = spec {
+                        match &got {
+                            Out::Val(g) if ns_of(g) == Some(v) => {}
+                            other => run.fail(&format!("C15|fractions|{}|digits{}|got={}", unit, if digits <= 9 { "<=9" } else { ">9" }, other.tag()), format!("duration({:?}) gave {} (exact value {} ns)", text, other.show(), v), json!({"text": text})),
+                        }
+                    }
+                }
+            }
+        }
+    }
+
     // ---- every string of <= L symbols over the duration alphabet through duration(v)
     let alphabet = ["1", "5", "0", ".", "-", "+", "h", "m", "s", "ms", "us", "ns", " ", "e", "inf", "nan", "x"];
     let maxlen = run.pick(4usize, 5usize);
